@@ -588,6 +588,15 @@ def standard_run(ctx, prop, profile):
                           "max_events": 80, "stall_after": None, "p_close": 0.0, "p_call2": 0.0, "bsizes": [1], "managed": k == 1,
                           "p_blocked_pull": 1.0, "cb_after_start": True, "policy": "pull_first", "nap_before_pulls": [2, 3],
                           "avoid_control": True})
+    if profile == "c04":
+        # fixed shapes: an object whose earlier unordered calls FAILED (completed and failed batches that nobody asked for
+        # stay behind) is used for an unordered call with a time-out in which nothing completes: TimeoutError, not a hang
+        for k, (nj, pre, n3) in enumerate(((2, "all", 1), (3, "all", 2), (2, 4, 1), (3, "all", 1))):
+            extra.append({"id": "leftover%d" % k, "seed": 2000 + k,
+                          "calls": [["call", nj, "all", "unordered", 8, None, [5], None], ["call", nj, "all", "unordered", 7, None, [4], None],
+                                    ["call", nj, pre, "unordered", n3, None, [], 2.0], ["call", nj, 2, "unordered", 3, None, [], None]],
+                          "max_events": 160, "stall_after": 0, "stall_call": 3, "p_close": 0.0, "p_call2": 0.0, "bsizes": [1],
+                          "managed": k % 2 == 1, "p_blocked_pull": 0.05, "cb_after_start": True, "policy": "pull_first"})
     res = correspondence(ctx, profile, n, extra)
     mine = [(c, r, o) for c, r, o in res["oracle_failures"] if o[0] in (prop, "ALL")]
     others = [(c, r, o) for c, r, o in res["oracle_failures"] if o[0] not in (prop, "ALL")]
